@@ -1,7 +1,7 @@
 CHECK = {
-    "suites": [suite("rounds", "c10", 2500, 150000, stdin=True)],
+    "suites": [suite("rounds", "c10", 2500, 150000, stdin=True), suite("dist", "c10dist", 3000, 200000, stdin=True)],
     "gen": [{"pkg": "extract_c10", "out": "lean/ClusterVerif/Gen/C10.lean"}],
-    "lean_sources": ["ClusterVerif/Model/C10Source.lean", "ClusterVerif/Gen/C10.lean", "ClusterVerif/Model/Pin.lean", "ClusterVerif/Model/C04.lean", "ClusterVerif/Model/C10.lean", "ClusterVerif/Spec/C10.lean",
+    "lean_sources": ["ClusterVerif/Model/C10Source.lean", "ClusterVerif/Gen/C10.lean", "ClusterVerif/Model/Pin.lean", "ClusterVerif/Model/C04.lean", "ClusterVerif/Model/C10.lean", "ClusterVerif/Spec/C10.lean", "ClusterVerif/Model/C10Dist.lean", "ClusterVerif/Spec/C10Dist.lean", "ClusterVerif/Lemmas/C10Dist.lean",
                      "ClusterVerif/Model/C03.lean", "ClusterVerif/Spec/C03.lean", "ClusterVerif/Lemmas/C10.lean", "ClusterVerif/Props/C10.lean"],
     "rule": "one case = one round over a shared pinset of 1-6 pins and 1-8 members: a ping alert for one member delivered to the real alertsHandler of every other "
             "(trusted) member, or one member running PeerRemove (LogPin / RmPeer call order recorded, RmPeer optionally failing, metrics optionally too scarce for some "
@@ -10,11 +10,18 @@ CHECK = {
             "give single members a smaller view of the peerset; members carry follower / disable-repinning flags, any metric state per peer, real blake2b hashes of the peer "
             "ids and cids; every 25th case evaluates the real Pin.ExpiredAt on a concrete clock around expire == now; the arm histogram in the evidence is the input "
             "distribution (members-n, actors-n, disc-*, order-*, repeated-x2, views-disagree, metric-not-ping, rmpeer-fails, failed-holds-nothing, only-failed-no-healthy, "
-            "factors-everywhere, remove-partial, two-repinners, expat-*); non-trivial = every case; distinct by case line",
+            "factors-everywhere, remove-partial, two-repinners, expat-*); non-trivial = every case; distinct by case line. "
+            "Suite dist: one case = 1-8 members with chosen 32-byte hashes (injected through the checker's own cache) or real ones, 1-4 cids asked in order on ONE real "
+            "distanceChecker per surviving member (hook VerifDistanceChecker), optional excluded member; hash relations: common prefix of 0/1/3/4/7/8/15/16/23/24/30/31 bytes, "
+            "last bits only, edge bytes 00/01/7f/80/81/fe/ff, a member on the cid (distance 0), collisions, excluded member closest; every 10th case the real xor() on edge arrays; "
+            "arms dist-prefix-*, dist-collision, dist-alone, dist-members-n, dist-cids-n, dist-{real,injected,mixed}-hashes, dist-excluded-is-closest, dist-zero-distance, xor-*",
     "trusted_base": ["FakeConsensus shared by the members of a round (a real dsstate applying LogPin/LogUnpin directly), wrapped per member (harness/c10/cons.go: own Peers() view, call record, failing RmPeer); "
                      "snapshot discipline: the harness replays the recorded LogPin/LogUnpin on a fresh dsstate in a seeded order, as a consensus layer would",
                      "alerts are delivered through the monitor's alert channel to the real alertsHandler; a second non-ping alert is used as a completion barrier",
-                     "hashes are passed to the model as numbers: bytes.Compare on 32-byte arrays = numeric order of their big-endian value"],
+                     "suite rounds passes hashes to the model as numbers; that bytes.Compare / xor on 32-byte arrays are the numeric order / Nat xor of the big-endian values is now a theorem "
+                     "(bytes_compare_is_numeric_order, bytes_xor_is_numeric_xor, isClosestB_eq_model) and suite dist runs the real comparison on byte arrays",
+                     "suite dist: chosen hashes reach the real isClosest through the checker's cache map (hook /repo/verif_export_c10.go, adds code only); hashes of non-injected members and of cids "
+                     "are computed by the harness with an independent blake2b-256 (go-multihash/blake2b-simd)"],
     "assumptions": ["blake2b-256 hashes of distinct members are distinct (collision freeness)",
                     "members agree on the peerset and on who is trusted (the property's own proviso; without it `disagreement_two_repinners` / `disagreement_nobody` show the claim fails, and the first is replayed on the real code from the corpus); untrusted members do not act",
                     "pinsets of plain data pins for the expiry round theorem (sharded content is removed with its root: C04)"],
@@ -28,8 +35,13 @@ META = {
             "round_rehomed_once), schedule and discipline irrelevant (round_schedule_irrelevant, snap_same_state); without agreement on the peerset the claim fails "
             "(witnesses). PeerRemove: every pin of the peer re-homed or the re-pin reports and the pin is kept, never removed, every LogPin precedes RmPeer, the removal is "
             "not aborted by a failed re-pin. Expiry: an expired pin is unpinned by exactly the closest member, an unexpired one by none, all orders, both disciplines; "
-            "ExpiredAt for every clock value incl. expire == now. The round model is tied to the code by running real Cluster instances over real dsstates "
+            "ExpiredAt for every clock value incl. expire == now. Byte level of util.go: xor and bytes.Compare on equal-length byte arrays are Nat xor and the numeric "
+            "order of the big-endian values, the per-checker hash cache is transparent over any run of isClosest calls as long as it holds only what the checker stored "
+            "(and a foreign entry changes answers), hence the code's byte-level answer equals the Nat-level isClosest of the round theorems (isClosestB_eq_model); "
+            "comparing a prefix only or an xor that skips a byte make two members with distinct hashes both closest (refutations). The real distanceChecker is run on "
+            "adversarial hash relations (shared prefixes up to 31 bytes, last bit, sign-boundary bytes, zero distance, collisions) with the clauses 'exactly one surviving "
+            "member closest per cid when hashes are distinct' and 'somebody closest' evaluated on its answers. The round model is tied to the code by running real Cluster instances over real dsstates "
             "and comparing final pinset and per-member LogPin/LogUnpin/RmPeer calls; the Lean property clauses are evaluated on the implementation's outputs.",
     "note": "Trusted: Lean kernel, hand-written model/spec, harness (shared fake consensus, alert delivery barrier), verif_export.go; hash collision-freeness is a hypothesis.",
-    "technique": "Lean 4 theorems (xor-distance uniqueness, step preservation, memoryless handler loop) + regenerated source text of the anchored functions checked against the transcribed snapshot (rfl) + differential correspondence per round on real Cluster instances",
+    "technique": "Lean 4 theorems (xor-distance uniqueness, step preservation, memoryless handler loop) + regenerated source text of the anchored functions checked against the transcribed snapshot (rfl) + differential correspondence per round on real Cluster instances + the real distanceChecker on injected adversarial 32-byte hashes against the byte-level model",
 }
